@@ -94,7 +94,7 @@ Definition dec_check (c : deccase) : bool :=
   | CLex doc toks me =>
       let '(ts, me') := lex doc in tokens_eqb ts toks && Bool.eqb me me'
   | CDec e root doc ft tmt dt obs =>
-      env_wf e && time_table_ok tmt && decimal_table_ok dt && obs_matches (decode_bytes (orc_of ft tmt dt) e root doc) obs
+      env_wf e && time_table_ok tmt && decimal_table_ok dt && obs_matches (decode_document (orc_of ft tmt dt) e root doc) obs
   | CQuery e root kvs ft tmt dt obs =>
       env_wf e && time_table_ok tmt && decimal_table_ok dt && existsb (fun p => obs_matches (decode_query (orc_of ft tmt dt) e root p) obs) (perms kvs)
   | CTime s r => time_eqb (go_time_parse s) r
